@@ -101,7 +101,7 @@ Definition xenv : env :=
   mkEnv Qc 0%Qc 1%Qc (Q2Qc (1 # 2)) Qcplus Qcminus Qcmult Qcdiv qabs qltb (fun a b => negb (qltb b a))
         0%Qc (Q2Qc 10) (Q2Qc 100) 0%Qc (Q2Qc (-1000)) (Q2Qc 1000)
         (fun k => Some (k ++ k)) (fun y => fold_right (fun a acc => (a * a + acc)%Qc) 0%Qc y)
-        (fun m y => Some (map (fun _ => 1%Qc) m)) (fun j _ _ _ _ => j) (fun x => x).
+        (fun m y => Some (map (fun _ => 1%Qc) m)) (fun j _ _ _ _ => j) (fun x => x) N.eqb.
 Definition xcfg : cfg Qc :=
   mkCfg [1%Qc] [Some (Some (Q2Qc (-3)), Some (Q2Qc 3))] [1%Qc] [None] [0%N] [0%N]
         [Q2Qc 2; Q2Qc 2] [Q2Qc (1 # 10); Q2Qc (1 # 10)] [1%Qc; 1%Qc] [0%N; 0%N] 3 true true true [].
